@@ -272,11 +272,11 @@ class MQTTProtocol(MQTTBaseProtocol):
             log.debug("==> {packet:7}(id={response.msgId:04x} dup={response.dup})" , packet="PUBREL", response=response)
             del self.factory.windowPubRx[self.addr][response.msgId]
             self._deliver(msg)
-            reply = PUBCOMP()
-            reply.msgId = response.msgId
-            reply.encode()
-            log.debug("<== {packet:7} (id={response.msgId:04x})" , packet="PUBCOMP", response=response)
-            self.transport.write(reply.encode())
+        # a repeated PUBREL means our PUBCOMP got lost: answer it again [MQTT-4.3.3-2]
+        reply = PUBCOMP()
+        reply.msgId = response.msgId
+        log.debug("<== {packet:7} (id={response.msgId:04x})" , packet="PUBCOMP", response=response)
+        self.transport.write(reply.encode())
 
 
     # --------------------------------------------------------------------------
